@@ -209,6 +209,7 @@ def trace_cfgs(quick, rng):
         {'name': 'rk4-1phase-split', 'phases': ('B1',), 'iterator': 'rk4', 'segments': [20.0, 30.0]},
         {'name': 'euler-2phase-split-vratio', 'phases': ('B1', 'B2'), 'gammas': [0.15, 0.12], 'iterator': 'euler', 'segments': [300.0, 700.0, 2000.0], 'vratio': 1.25},
         {'name': 'euler-ramp', 'phases': ('B1',), 'iterator': 'euler', 'segments': [2e3], 'T': (lambda t: 650.0 + 0.05 * t)},
+        {'name': 'euler-grain-boundary', 'phases': ('B1',), 'iterator': 'euler', 'segments': [2e3], 'site': 'grain boundaries', 'gamma': 0.22},
         # molar volume of the precipitate changed between two solve calls, with and without a reset in between
         {'name': 'euler-volume-change', 'phases': ('B1',), 'iterator': 'euler', 'segments': [300.0, 300.0],
          'between': [[('setVolumeBeta', ((0.4e-9) ** 3 / 1.2, 1, 4, 'B1'))]]},
@@ -315,7 +316,12 @@ def run(ctx):
     # (b)
     traces = []
     for cfg in trace_cfgs(quick, ctx.rng):
-        tr = kwn_trace.run_binary(cfg)
+        try:
+            tr = kwn_trace.run_binary(cfg)
+        except kwn_trace.RunTimeout as e:
+            ctx.violation('run_terminates', {'site': SITE, 'cls': 'run did not finish'}, {'kind': 'trace', 'run': cfg['name'], 'observed': str(e)},
+                          'precipitation run %s did not finish: %s' % (cfg['name'], e))
+            continue
         traces.append(tr)
         ctx.cov['traces_validated_against_impl'] += 1
         ctx.hist('trace_steps', '%s:%d' % (cfg['name'], len(tr.steps)))
